@@ -161,6 +161,28 @@ func (r *Region) Blocks() []*ssa.BasicBlock {
 	return out
 }
 
+// EdgeDominates: every path from the root's entry to blk crosses edge e. When blk lies in a helper and e in one of its
+// (transitive) callers, that holds if e dominates every call site through which the helper is entered.
+func (r *Region) EdgeDominates(e Edge, blk *ssa.BasicBlock) bool {
+	return r.edgeDominates(e, blk, 0)
+}
+
+func (r *Region) edgeDominates(e Edge, blk *ssa.BasicBlock, depth int) bool {
+	if e.From.Parent() == blk.Parent() {
+		return EdgeDominates(e, blk)
+	}
+	g := blk.Parent()
+	if depth > regionDepth || g == r.Root || !r.in[g] || len(r.sites[g]) == 0 {
+		return false
+	}
+	for _, cs := range r.sites[g] {
+		if !r.edgeDominates(e, cs.Block(), depth+1) {
+			return false
+		}
+	}
+	return true
+}
+
 // Has reports whether fn is the root or one of its expanded helpers.
 func (r *Region) Has(fn *ssa.Function) bool { return r.in[fn] }
 
@@ -189,13 +211,18 @@ func CallsR(fn *ssa.Function) []ssa.CallInstruction {
 //   - a result of an expanded helper call is the value the helper returns for that result when, nil/zero constants
 //     aside, all its returns agree on one value (the usual `return nil, err` / `return v, nil` shape).
 // The steps are repeated; other values are returned with conversions stripped.
-func (r *Region) Canon(v ssa.Value) ssa.Value {
+func (r *Region) Canon(v ssa.Value) ssa.Value { return r.canon(v, 0) }
+
+func (r *Region) canon(v ssa.Value, depth int) ssa.Value {
+	if depth > 2*regionDepth {
+		return Strip(v)
+	}
 	for i := 0; i < 2*regionDepth+2; i++ {
 		v = Strip(v)
 		switch x := v.(type) {
 		case *ssa.Parameter:
 			g := x.Parent()
-			if g == r.Root || !r.in[g] || len(r.sites[g]) != 1 {
+			if g == r.Root || !r.in[g] || len(r.sites[g]) == 0 {
 				return v
 			}
 			idx := -1
@@ -204,11 +231,24 @@ func (r *Region) Canon(v ssa.Value) ssa.Value {
 					idx = j
 				}
 			}
-			args := r.sites[g][0].Common().Args
-			if r.sites[g][0].Common().IsInvoke() || idx < 0 || idx >= len(args) {
-				return v
+			// the argument at the helper's call site; with several call sites, the value they all agree on
+			var agreed ssa.Value
+			for k, cs := range r.sites[g] {
+				args := cs.Common().Args
+				if cs.Common().IsInvoke() || idx < 0 || idx >= len(args) {
+					return v
+				}
+				a := args[idx]
+				if len(r.sites[g]) > 1 {
+					a = r.canon(a, depth+i+1)
+				}
+				if k == 0 {
+					agreed = a
+				} else if Strip(agreed) != Strip(a) {
+					return v
+				}
 			}
-			v = args[idx]
+			v = agreed
 		case *ssa.FreeVar:
 			g := x.Parent()
 			if g == r.Root || !r.in[g] {
@@ -335,6 +375,7 @@ type ritem struct {
 	b      *ssa.BasicBlock
 	start  int
 	facts  [2]rfact
+	k      string // knowledge about the tracked enum fact (ReachFact)
 	parent int
 }
 
@@ -343,7 +384,7 @@ func (it *ritem) key() string {
 	for _, f := range it.stack {
 		fmt.Fprintf(&sb, "%p/", f.call)
 	}
-	fmt.Fprintf(&sb, "|%p|%d|", it.b, it.start)
+	fmt.Fprintf(&sb, "|%p|%d|%s|", it.b, it.start, it.k)
 	for _, f := range it.facts {
 		if f.call != nil {
 			fmt.Fprintf(&sb, "%p=%p;", f.call, f.ret)
@@ -452,10 +493,47 @@ func Reach(fn *ssa.Function, from ssa.Instruction, target func(ssa.Instruction) 
 	if len(fn.Blocks) == 0 {
 		return nil, false
 	}
-	rg := RegionOf(fn)
-	if len(rg.Fns) == 1 {
+	if len(RegionOf(fn).Fns) == 1 {
 		return reachLocal(fn, from, target, blocked, barrier)
 	}
+	return reachRegion(fn, from, target, blocked, barrier, nil, "", nil)
+}
+
+// ReachFact is Reach made path-sensitive in ONE enum-like fact: isFact recognises the SSA values that read the fact
+// (e.g. loads of options.MapSortMode - also after the value was passed to a helper as an argument), and along a path
+// the analysis remembers which constant it was found equal to. `known` is the initial knowledge ("" = unknown,
+// otherwise the constant's ExactString). Edges of comparisons fact ==/!= K that contradict the knowledge are infeasible.
+func ReachFact(fn *ssa.Function, from ssa.Instruction, target func(ssa.Instruction) bool, blocked map[Edge]bool, barrier func(ssa.Instruction) bool, isFact func(ssa.Value) bool, known string) ([]*ssa.BasicBlock, bool) {
+	if len(fn.Blocks) == 0 {
+		return nil, false
+	}
+	return reachRegion(fn, from, target, blocked, barrier, isFact, known, nil)
+}
+
+// ReachFactDrop is ReachFact with a forgetting rule: after an instruction for which drop is true the knowledge about
+// the fact is discarded (the instruction may have changed it, e.g. an opaque call that was handed the object).
+func ReachFactDrop(fn *ssa.Function, from ssa.Instruction, target func(ssa.Instruction) bool, blocked map[Edge]bool, barrier func(ssa.Instruction) bool, isFact func(ssa.Value) bool, known string, drop func(ssa.Instruction) bool) ([]*ssa.BasicBlock, bool) {
+	if len(fn.Blocks) == 0 {
+		return nil, false
+	}
+	return reachRegion(fn, from, target, blocked, barrier, isFact, known, drop)
+}
+
+// ReachFromBlock is Reach started at the first instruction of blk, a block of fn or of one of its expanded helpers
+// (in a helper the calling context is unknown: the helper's returns continue after each of its call sites).
+func ReachFromBlock(fn *ssa.Function, blk *ssa.BasicBlock, target func(ssa.Instruction) bool, blocked map[Edge]bool, barrier func(ssa.Instruction) bool) ([]*ssa.BasicBlock, bool) {
+	if len(fn.Blocks) == 0 || blk == nil {
+		return nil, false
+	}
+	startBlock = blk
+	defer func() { startBlock = nil }()
+	return reachRegion(fn, nil, target, blocked, barrier, nil, "", nil)
+}
+
+var startBlock *ssa.BasicBlock // set by ReachFromBlock for the duration of one exploration
+
+func reachRegion(fn *ssa.Function, from ssa.Instruction, target func(ssa.Instruction) bool, blocked map[Edge]bool, barrier func(ssa.Instruction) bool, isFact func(ssa.Value) bool, known string, drop func(ssa.Instruction) bool) ([]*ssa.BasicBlock, bool) {
+	rg := RegionOf(fn)
 	var items []ritem
 	seen := map[string]bool{}
 	push := func(it ritem) {
@@ -466,8 +544,10 @@ func Reach(fn *ssa.Function, from ssa.Instruction, target func(ssa.Instruction) 
 		seen[k] = true
 		items = append(items, it)
 	}
-	if from == nil {
-		push(ritem{b: fn.Blocks[0], start: 0, parent: -1})
+	if from == nil && startBlock != nil {
+		items = append(items, ritem{b: startBlock, start: 0, k: known, parent: -1})
+	} else if from == nil {
+		push(ritem{b: fn.Blocks[0], start: 0, k: known, parent: -1})
 	} else {
 		b := from.Block()
 		idx := 0
@@ -476,7 +556,7 @@ func Reach(fn *ssa.Function, from ssa.Instruction, target func(ssa.Instruction) 
 				idx = i + 1
 			}
 		}
-		it := ritem{b: b, start: idx, parent: -1}
+		it := ritem{b: b, start: idx, k: known, parent: -1}
 		items = append(items, it) // not marked seen: a loop back to the block start is explored fully
 	}
 	path := func(i int) []*ssa.BasicBlock {
@@ -509,7 +589,7 @@ func Reach(fn *ssa.Function, from ssa.Instruction, target func(ssa.Instruction) 
 					nf := it.facts
 					nf[1] = nf[0]
 					nf[0] = rfact{fr.call, ret}
-					push(ritem{stack: append([]rframe{}, it.stack[:n-1]...), b: fr.blk, start: fr.idx + 1, facts: nf, parent: qi})
+					push(ritem{stack: append([]rframe{}, it.stack[:n-1]...), b: fr.blk, start: fr.idx + 1, facts: nf, k: it.k, parent: qi})
 				} else {
 					// exploration started inside the helper: context unknown, continue after every call site
 					for _, cs := range rg.sites[cur] {
@@ -519,7 +599,7 @@ func Reach(fn *ssa.Function, from ssa.Instruction, target func(ssa.Instruction) 
 								nf := it.facts
 								nf[1] = nf[0]
 								nf[0] = rfact{cs, ret}
-								push(ritem{b: cb, start: j + 1, facts: nf, parent: qi})
+								push(ritem{b: cb, start: j + 1, facts: nf, k: it.k, parent: qi})
 							}
 						}
 					}
@@ -537,10 +617,13 @@ func Reach(fn *ssa.Function, from ssa.Instruction, target func(ssa.Instruction) 
 			if ci, ok := in.(ssa.CallInstruction); ok {
 				if g := HelperCallee(cur, ci); g != nil && rg.in[g] && g != rg.Root && g != cur && !onStack(it.stack, g) && len(it.stack) < regionDepth {
 					ns := append(append([]rframe{}, it.stack...), rframe{ci, it.b, i})
-					push(ritem{stack: ns, b: g.Blocks[0], start: 0, facts: it.facts, parent: qi})
+					push(ritem{stack: ns, b: g.Blocks[0], start: 0, facts: it.facts, k: it.k, parent: qi})
 					stopped = true
 					break
 				}
+			}
+			if drop != nil && it.k != "" && drop(in) {
+				it.k = ""
 			}
 		}
 		if stopped {
@@ -564,7 +647,27 @@ func Reach(fn *ssa.Function, from ssa.Instruction, target func(ssa.Instruction) 
 			if si < 2 && !feasible[si] {
 				continue
 			}
-			push(ritem{stack: it.stack, b: s, start: 0, facts: it.facts, parent: qi})
+			nk := it.k
+			if isFact != nil {
+				if r, ok := EdgeRel(Edge{it.b, si}); ok && (r.Op == token.EQL || r.Op == token.NEQ) {
+					x, y := r.X, r.Y
+					if ConstVal(x) != nil {
+						x, y = y, x
+					}
+					if cv := ConstVal(y); cv != nil && (isFact(x) || (cur != rg.Root && isFact(rg.Canon(x)))) {
+						k := cv.ExactString()
+						if r.Op == token.EQL {
+							if it.k != "" && it.k != k {
+								continue
+							}
+							nk = k
+						} else if it.k == k {
+							continue
+						}
+					}
+				}
+			}
+			push(ritem{stack: it.stack, b: s, start: 0, facts: it.facts, k: nk, parent: qi})
 		}
 	}
 	return nil, false
